@@ -17,9 +17,9 @@ PRE = ('From Coq Require Import List ZArith Bool SpecFloat.\n'
        'From PV Require Import Base.Exn Model.ValidatorsBase Model.ValidatorsRegex Gen.Validators Model.Validators '
        'Spec.ValidatorsSpec Model.ValidatorsEval.\nImport ListNotations.')
 VEXC, CONVERR = [0, 13, 0], [0, 13, 2]
-INT_LIMIT = 10 ** 4000     # CPython's int<->str digit limit (4300) is outside the model: ints stay below 10**4000
-GAPS = {1: 'minmax_nan', 2: 'isenum_intenum_fractional_float', 3: 'isenum_intenum_infinite_float',
-        4: 'unixtimestamp_int_beyond_float_range'}
+INT_LIMIT = 10 ** 4000     # JSON carries ints above this in hex (str() of an int of more than 4300 digits raises)
+DIGIT_LIMIT = 10 ** 4300   # CPython's int<->str digit limit: modelled for convert_value and the primitives; the validators'
+                           # rejection messages (f-strings over the value) are not modelled - see stream digitlimit
 inf, nan = math.inf, math.nan
 
 
@@ -244,7 +244,7 @@ def coq_term(c, impl):
         return None
     op = c['op']
     if op == 'show':
-        return f'eval_show {cz(int(c["z"]))}'
+        return f'eval_show {cz(pint(c["z"]))}'
     if op == 'parse':
         return f'eval_parse {c_zlist(c["s"])}'
     if op == 'strip':
@@ -693,16 +693,34 @@ def gen_convert(rng, n):
     return cases
 
 
-def gen_digitlimit(rng):
-    """beyond CPython's int<->str digit limit the model is silent (show_Z is the mathematical printer): implementation
-    against the property text only"""
+def gen_digitlimit(rng, quick=True):
+    """ints beyond CPython's int<->str digit limit.  convert_value is modelled there (str_of_int / int_of_canonical);
+    the validators' rejection messages are not: those cases carry the verdict the property text demands (`expect`) and
+    are judged on the implementation alone"""
     out = []
-    for z in (10 ** 4300, -10 ** 4300, 10 ** 5000, rng.getrandbits(16000) | (1 << 15999)):
-        for t in ('str', 'float', 'list', 'bool', 'dict'):
-            out.append({'kind': 'convert', 'v': I(z), 't': t, 'stream': 'digitlimit', 'nomodel': True})
-    out.append({'kind': 'convert', 'v': I(10 ** 5000), 't': 'int', 'stream': 'digitlimit', 'nomodel': True})
-    out.append({'kind': 'convert', 'v': S('1' * 5000), 't': 'int', 'stream': 'digitlimit', 'nomodel': True})
-    out.append({'kind': 'convert', 'v': S('1' * 5000), 't': 'float', 'stream': 'digitlimit', 'nomodel': True})
+    big = rng.getrandbits(16000) | (1 << 15999)
+    # a 4300-digit value costs coqc about a second (literal lists of that length): few in the quick tier
+    if quick:
+        pairs = [(10 ** 4300 - 1, 'int'), (10 ** 4300 - 1, 'str'), (10 ** 4300, 'str'), (10 ** 4300, 'float'), (-10 ** 4300, 'bool'),
+                 (-10 ** 5000, 'list')]
+        spairs = [('1' * 4300, 'int'), ('-' + '1' * 4301, 'int'), ('0' * 4301, 'int'), ('0' * 4301, 'bool')]
+    else:
+        pairs = [(z, t) for z in (10 ** 4300 - 1, -(10 ** 4300 - 1), 10 ** 4300, -10 ** 4300, 10 ** 5000, big) for t in TT]
+        spairs = [(d, t) for d in ('1' * 4300, '1' * 4301, '-' + '1' * 4300, '-' + '1' * 4301, '0' * 4301, ' ' + '9' * 4300 + '\n', '1' * 5000)
+                  for t in ('int', 'float', 'str', 'bool')]
+    for z, t in pairs:
+        out.append({'kind': 'convert', 'v': I(z), 't': t, 'stream': 'digitlimit'})
+    for d, t in spairs:
+        out.append({'kind': 'convert', 'v': S(d), 't': t, 'stream': 'digitlimit'})
+    B = 10 ** 5000
+    NM = lambda w, v, expect: {'kind': 'validate', 'w': w, 'v': v, 'stream': 'digitlimit', 'nomodel': True, 'expect': expect}
+    out += [NM({'k': 'Min', 'bound': I(5), 'incl': True}, I(B), 'accept'), NM({'k': 'Min', 'bound': I(5), 'incl': True}, I(-B), 'reject'),
+            NM({'k': 'Max', 'bound': I(5), 'incl': None}, I(B), 'reject'), NM({'k': 'Max', 'bound': I(5), 'incl': False}, I(-B), 'accept'),
+            NM({'k': 'Min', 'bound': I(B), 'incl': True}, I(5), 'reject'), NM({'k': 'Max', 'bound': I(B), 'incl': True}, F(1e308), 'accept'),
+            NM({'k': 'Unix'}, I(B), 'reject'), NM({'k': 'Unix'}, I(-big), 'reject'),
+            NM({'k': 'IsEnum', 'members': [I(1), I(2)], 'int': True, 'convert': True, 'upper': True}, I(B), 'reject'),
+            NM({'k': 'ForEach', 'cs': [{'k': 'Min', 'bound': I(5), 'incl': True}], 'single': True, 'tuple': False}, L([I(7), I(-B)]), 'reject'),
+            NM({'k': 'Composite', 'cs': [{'k': 'Min', 'bound': I(5), 'incl': True}, {'k': 'Max', 'bound': I(9), 'incl': True}]}, I(B), 'reject')]
     return out
 
 
@@ -741,6 +759,11 @@ def gen_prims(rng, n):
     digits_ws = list('0123456789') * 2 + ['-'] + WS
     for t in INT_STR_SEEDS:
         cases.append(P(op='int_str', s=[ord(ch) for ch in t], closed=all(ch in digits_ws for ch in t)))
+    for z in (10 ** 4300 - 1, -(10 ** 4300 - 1), 10 ** 4300) if n < 5000 else (10 ** 4299, 10 ** 4300 - 1, -(10 ** 4300 - 1), 10 ** 4300, -10 ** 4300):
+        cases.append(P(op='show', z=I(z)[1]))
+    for t in ('1' * 4300, '-' + '1' * 4301, '0' * 4301) if n < 5000 else \
+            ('1' * 4300, '1' * 4301, '-' + '1' * 4300, '-' + '1' * 4301, '0' * 4301, '\t' + '0' * 4300 + ' ', '\x1f' + '1' * 4301):
+        cases.append(P(op='int_str', s=[ord(ch) for ch in t], closed=True))
     for z in INTS_SMALL + INTS_BIG:
         cases.append(P(op='show', z=str(z)))
         cases.append(P(op='float_of_int', z=str(z)))
@@ -801,7 +824,7 @@ def gen_cases(rng, tier, scale):
     cases += gen_convert(rng, n['convert'])
     cases += gen_roundtrip(rng, n['roundtrip'])
     cases += gen_prims(rng, n['prims'])
-    cases += gen_digitlimit(rng)
+    cases += gen_digitlimit(rng, q)
     return cases
 
 
@@ -826,16 +849,15 @@ def judge(c, impl, model):
         o = impl['out']
         ok = o[0] == 'ok' and enc_value(o[1]) == enc_value(c['x'])
         return True, ok, '' if ok else f'convert_value(str(x), type(x)) does not give x back: {o}'
-    if k == 'convert' and c.get('nomodel'):
+    if k == 'validate' and c.get('nomodel'):
         o = impl['out']
-        typed = (o[0] == 'ok' and o[1][0] in TYPE_TAG[c['t']]) or is_exc(o, CONVERR)
-        c['_obs'] = 'leak:' + o[2] if o[0] == 'exc' and not is_exc(o, CONVERR) else o[0]
-        return True, typed, '' if typed else f'neither an instance of {c["t"]} nor ConversionError: {o[:1] + o[2:] if o[0] == "exc" else o[:1]}'
+        c['_obs'] = 'accepted' if o[0] == 'ok' else 'rejected' if is_exc(o, VEXC) else 'leak:' + o[2]
+        ok = (c['_obs'] == 'accepted' and enc_value(o[1]) == enc_value(c['v'])) if c['expect'] == 'accept' else c['_obs'] == 'rejected'
+        return True, ok, '' if ok else f'the property text demands {c["expect"]} (ValidatorException for a rejection), the call gave {c["_obs"]}'
     if model is None:
         return False, True, 'model evaluation failed'
     if k == 'validate':
-        m_out, s_ver, gaps, m_outp = sections(model)
-        c['_gaps'] = sorted(set(GAPS.get(g, str(g)) for g in gaps))
+        m_out, s_ver, m_outp = sections(model)
         i_out, i_outp = enc_outcome(impl['out']), enc_outcome(impl['outp'])
         corr = i_out == m_out and i_outp == m_outp
         what = ''
@@ -877,15 +899,21 @@ def judge(c, impl, model):
         ok = impl['int'] == want and impl['float'] == want
         return ok, True, '' if ok else 'the whitespace int()/float() skip differs from CPython'
     if op == 'int_str':
-        # the modelled part of int(str): parse_dec (num_strip s).  Where it answers it must agree with CPython; on strings
-        # over whitespace / ASCII digits / '-' (closed=True) int() reads nothing else, so there it must also answer
+        # the modelled part of int(str): int_of_canonical (digit limit included).  Where it answers it must agree with CPython;
+        # on strings over whitespace / ASCII digits / '-' (closed=True) int() reads nothing else, so there it must also answer
         r = impl['r']
         if model[0] == 1:
-            ok = r[0] == 'ok' and [1] + enc_Z(int(r[1])) == model
+            ok = r[0] == 'ok' and [1] + enc_Z(int(r[1], 16) if 'x' in r[1] else int(r[1])) == model
+        elif model[0] == 2:
+            ok = r[0] == 'exc' and [2, len(r[1])] + r[1] == model
         else:
             ok = not (c.get('closed') and r[0] == 'ok')
         return ok, True, '' if ok else 'the modelled part of int(str) differs from CPython'
-    if op in ('show', 'strip'):
+    if op == 'show':
+        r = impl['r']
+        ok = model == ([0] + r[1] if r[0] == 'ok' else [1, len(r[1])] + r[1])
+        return ok, True, '' if ok else 'str(int) differs from CPython'
+    if op == 'strip':
         ok = impl['r'] == model
     elif op == 'parse':
         r = impl['r']
@@ -930,29 +958,44 @@ def evaluate(ck, cases):
             terms.append(t)
     model = [None] * len(cases)
     if ck.model_ok and terms:
-        res = ck.coq_eval(PRE, terms, chunk=250, timeout=1500)
-        for i, m in zip(idx, res):
-            model[i] = m
+        # terms with thousands of literals (values at the int<->str digit limit) cost coqc a second each: own small shards,
+        # evaluated next to the ordinary ones.  The ordinary terms are dealt round-robin to one shard per core so that the
+        # expensive streams (big ints in bounds / convert) are spread evenly.
+        import threading
+        light = [(i, t) for i, t in zip(idx, terms) if len(t) < 12000]
+        heavy = [(i, t) for i, t in zip(idx, terms) if len(t) >= 12000]
+        nsh = max(1, min(NPROC, len(light) // 100))
+        light = [light[j] for k in range(nsh) for j in range(k, len(light), nsh)]
+
+        def job(part, chunk):
+            res = ck.coq_eval(PRE, [t for _, t in part], chunk=chunk, timeout=1500)
+            for (i, _), m in zip(part, res):
+                model[i] = m
+        ths = [threading.Thread(target=job, args=(part, chunk))
+               for part, chunk in ((light, max(100, -(-len(light) // nsh))), (heavy, 2)) if part]
+        [t.start() for t in ths]
+        [t.join() for t in ths]
     return impl, model
 
 
+def has_huge_int(j):
+    if isinstance(j, list):
+        if j[:1] == ['int'] and len(j) == 2 and isinstance(j[1], str):
+            return abs(pint(j[1])) >= DIGIT_LIMIT
+        return any(has_huge_int(x) for x in j)
+    if isinstance(j, dict):
+        return any(has_huge_int(x) for x in j.values())
+    return False
+
+
 def matcher(finding, case):
-    """an open finding covers a failing case only if (a) the Coq spec reports the finding's gap on the documented evaluation
-    path of the case (Spec.ValidatorsSpec.gaps: exactly the regions the _partial theorems exclude) and (b) the observation
-    is the finding's: a value that should be rejected is accepted / one specific foreign exception leaves"""
+    """narrow syntactic predicates of the open findings"""
     m = finding.get('matcher', {})
-    if m.get('id') == 'C14-digit-limit':
-        v = case.get('v', [])
-        return (case.get('kind') == 'convert' and bool(case.get('nomodel')) and case.get('_obs') == 'leak:ValueError'
-                and v[:1] == ['int'] and abs(pint(v[1])) >= 10 ** 4300 and case.get('t') != 'int')
-    if case.get('kind') != 'validate' or m.get('gap') not in case.get('_gaps', []):
-        return False
-    obs = case.get('_obs', '')
-    if m.get('continues'):
-        # the defect lets a value pass that the documented predicate rejects: the documented evaluation stops there with
-        # "reject", the implementation goes on (later children / items), so whatever it then does is a consequence
-        return obs.endswith('/reject') and obs != 'rejected/reject'
-    return obs in m.get('obs', [])
+    if m.get('id') == 'C14-K9-reject-message-digit-limit':
+        # a rejection whose message formats an int of more than 4300 digits: ValueError from the f-string
+        return (case.get('kind') == 'validate' and bool(case.get('nomodel')) and case.get('expect') == 'reject'
+                and case.get('_obs') == 'leak:ValueError' and (has_huge_int(case.get('v')) or has_huge_int(case.get('w'))))
+    return False
 
 
 def run(tier, seed, replay=None):
